@@ -8,7 +8,7 @@ MISMATCHES = "mismatches_C13"
 VIOLATIONS = "violations_C13"
 KNOWN = None
 SHARD = 40
-RULE = ("top-level user files whose names are proper substrings of the job's own file names (state, json, signac, point.json, document ...) x document strategy incl. DocSync.COPY; permission bits other than the umask default on counterpart / one-sided / nested files and in cloned jobs x preserve_permissions / preserve_times x collect_stats (bits observed before and after, next to the trees); names of filecmp.DEFAULT_IGNORES on both sides with equal size and mtime but different content; file / directory clashes at the top level and nested, user files named like the state point / document in sub-directories, a caller-owned exclude list reused across two calls, deep syncs after an earlier deep comparison of the same paths followed by a same-size same-mtime change (filecmp cache not cleared by the harness); selection also as one-shot iterables (generator / iter / map / groupby group); seeded random pairs of real projects over the universe of the property text (0-4 jobs each, overlapping / disjoint "
+RULE = ("Job.sync / sync_jobs between jobs whose state points differ x document strategy (all DocSync.COPY combinations in quick) x file strategy incl. custom strategies that accept the state point file and update with a newer source state point x destination initialised or not; top-level user files whose names are proper substrings of the job's own file names (state, json, signac, point.json, document ...) x document strategy incl. DocSync.COPY; permission bits other than the umask default on counterpart / one-sided / nested files and in cloned jobs x preserve_permissions / preserve_times x collect_stats (bits observed before and after, next to the trees); names of filecmp.DEFAULT_IGNORES on both sides with equal size and mtime but different content; file / directory clashes at the top level and nested, user files named like the state point / document in sub-directories, a caller-owned exclude list reused across two calls, deep syncs after an earlier deep comparison of the same paths followed by a same-size same-mtime change (filecmp cache not cleared by the harness); selection also as one-shot iterables (generator / iter / map / groupby group); seeded random pairs of real projects over the universe of the property text (0-4 jobs each, overlapping / disjoint "
         "ids, files identical / differing / one-sided with explicit mtimes, nested and empty directories, file-vs-directory "
         "clashes, names from filecmp.DEFAULT_IGNORES and names that merely start like the state point / document file, job and "
         "project documents overlapping / nested / conflicting / mixed-type) x options (strategy None/always/never/update/custom, "
@@ -38,7 +38,7 @@ def gen_inputs(tier, rng):
     core, nested, backup = sync_gen.core_file_cases(), sync_gen.core_nested_cases(), sync_gen.core_backup_cases()
     if tier == "quick":
         core, nested, backup = rng.sample(core, 80), rng.sample(nested, 90), rng.sample(backup, 40)
-    return descs + core + nested + backup + _excl(tier, rng) + _round3(tier, rng) + _round4(tier, rng) + _round6(tier, rng) + _round7(tier, rng) + sync_gen.core_reuse_cases()
+    return descs + core + nested + backup + _excl(tier, rng) + _round3(tier, rng) + _round4(tier, rng) + _round6(tier, rng) + _round7(tier, rng) + _round8(tier, rng) + sync_gen.core_reuse_cases()
 
 def _round3(tier, rng):
     cases = sync_gen.core_selection_cases()
@@ -49,6 +49,15 @@ def _round3(tier, rng):
 def _round4(tier, rng):
     cases = sync_gen.core_clash_cases() + sync_gen.core_reuse_exclude_cases()
     return cases if tier != "quick" else rng.sample(cases, 130)
+
+
+def _round8(tier, rng):
+    cross = sync_gen.core_cross_cases((False,))
+    if tier == "quick":
+        copy = [c for c in cross if c["opts"]["doc_sync"] == "copy"]
+        other = [c for c in cross if c["opts"]["doc_sync"] != "copy"]
+        cross = copy + rng.sample(other, 30)
+    return cross
 
 
 def _round7(tier, rng):
